@@ -12,6 +12,16 @@ for l in open(os.path.join(HERE, 'properties.jsonl')):
 
 # id -> (category, text, design_ref, level_note, technique)
 CHECKS = {
+    'C07': ('model_checking',
+            'Programs of 1..3 plane multiplications over every amplitude/OPD/mask representation and pixel-scale combination '
+            '(plus default planes, a propagation and an Image plane) are evaluated exactly by TLC on Optics.tla (plane = pointwise '
+            'phasor inside its mask, zero outside; metadata rules; refusal of inconsistent pixel scales). On lentil, after every step: '
+            'field, intensity vs |field|^2 (spec and own), Wavefront.insert into a dirty target of another shape with a weight, '
+            'wavelength, focal length, pixel scale, shape; refused steps must leave both operands byte-identical.',
+            'DESIGN.md 5 C07',
+            'Trusted: harness/optics.py and embed_centre() for the insert expectation. Programs in which a one-sample Field takes '
+            'part are a recorded known finding.',
+            'exact pointwise-phasor semantics in TLA+ (TLC), views checked after every step of replayed programs'),
     'C08': ('model_checking',
             'TLC explores PType.tla, whose tables are parsed from /repo/docs at check time, checks closure / refusal / '
             'propagation rule on it, and emits every program of the state graph up to the length bound; each program is '
@@ -60,6 +70,14 @@ CHECKS = {
             'Trusted: harness/optics.py. Exact non-zero integer displacements only on all-dyadic geometries (np.fix ties are '
             'do-not-care). Higher-order dispersive elements (numerical root finding) are outside the model.',
             'exact shift-theorem oracle in TLA+ (TLC), representation programs replayed into lentil'),
+    'C05': ('model_checking',
+            'TLC proves Parseval for the zero-padded full period in Z[zeta_N] (ThmEnergy, K_r != K_c, odd/even) on flagged cases and '
+            'evaluates the exact field for every geometry/window; on lentil the total intensity of propagate_dft and propagate_fft '
+            'over the full period must equal the integer input power, nested windows must capture exactly the spec\'s partial sums '
+            '(monotone, bounded), intensity must be non-negative, and normalize_power(a, p) must have power p and image to p.',
+            'DESIGN.md 5 C05',
+            'Trusted: harness/optics.py; the square root in normalize_power is a numeric leaf checked in floating point.',
+            'ring-level Parseval model-checked by TLC; exact partial sums as oracle for lentil'),
     'C06': ('model_checking',
             'FieldAlg.tla defines multiply / merge / reduce / insert and the extent queries on the embedding of a field in '
             'Z^2 (pixel sets, pointwise Gaussian-integer arithmetic). TLC checks the rectangle calculus against pixel sets '
